@@ -20,6 +20,7 @@ RULE = ("dicts of 1-6 named games drawn from pools of solvable (G-ACY/G-CYC/G-DE
         "last / several failing, the same dict run twice; batch entries compared field by field with solo solves from a separate process.  "
         "Non-trivial: the dict contains a failing game together with a solvable one, or a game in which pruning removes a transition; "
         "distinct = (pool hash, order).")
+RULE += (' FILE class (pool written to a file and run through main -s), names with braces/percent/blanks/empty. THREADS class: the real code called from 3-4 threads of one interpreter (1 us switch interval, yield injection at every ~1000-3000th executed line), each concurrent outcome compared with the sequential outcome of the same process.')
 FLOOR = 200
 REQUIRED = ["run.calls"]
 ASSUMPTIONS = ["names are arbitrary strings (letters, digits, underscores, braces, percent signs, blanks, the empty name) that never end in _no_prune (x and x_no_prune collide by construction of the key scheme)",
